@@ -4,13 +4,31 @@ package gomatrixserverlib
 
 import "github.com/matrix-org/gomatrixserverlib/spec"
 
-// vp:check C07 both configs=version:ALLVERSIONS K=12 timeout=900
+func vpSetRedacts(e PDU, id string) {
+	switch x := e.(type) {
+	case *eventV1:
+		x.eventFields.Redacts = id
+	case *eventV2:
+		x.eventFields.Redacts = id
+	case *eventV3:
+		x.eventFields.Redacts = id
+	}
+}
+
+// vp:check C07 both configs=version:ALLVERSIONS;kind:ordinary K=12 timeout=900
+// vp:check C07 both configs=version:1|2|3|10|12;kind:redaction K=12 timeout=900
+// vp:check C07 both configs=version:1|5|6|10|12|org.matrix.msc4014;kind:aliases K=12 timeout=900
 // vp_C07_default: events of ordinary types (not create/member/aliases/power_levels/redaction) are accepted exactly
 // when: a create event for the same room is among the auth events; the sender's server may take part (m.federate); the
 // sender's membership is join; the sender's level reaches the level required for the event type; and a state key
 // starting with '@' names the sender. Power levels, defaults, and v12 creator privileges as specified (DESIGN.md 7.1).
+// kind=redaction: m.room.redaction passes the same checks and, in room versions 1 and 2, additionally needs the redact
+// level unless the redacted event comes from the sender's own server (departure D12). kind=aliases: m.room.aliases
+// needs only a create event of the same room, a server allowed by m.federate and a state key naming the sender's
+// server (the sender itself in pseudo-ID rooms) - departure D4.
 func vp_C07_default() {
 	ver := RoomVersion(vpConfig("version"))
+	kind := vpConfig("kind")
 	createID := vpCreateID(ver)
 	room := vpRoomIDFor(ver, createID)
 
@@ -44,8 +62,16 @@ func vp_C07_default() {
 
 	sender := vpAlice // by symmetry: the creator ranges over same user / same server / other server
 	evType := "m.room.name"
+	switch kind {
+	case "redaction":
+		evType = spec.MRoomRedaction
+	case "aliases":
+		evType = spec.MRoomAliases
+	}
 	var stateKey *string
-	switch vpChoice("state_key", "nil", "empty", "sender", "other-user", "plain") {
+	switch vpChoice("state_key", "nil", "empty", "sender", "other-user", "plain", "sender-server") {
+	case "sender-server":
+		stateKey = vpStrPtr("x")
 	case "empty":
 		stateKey = vpStrPtr("")
 	case "sender":
@@ -66,6 +92,7 @@ func vp_C07_default() {
 	typeLvl := vpNondetI64("pl.type")
 	eventsDefault := vpNondetI64("pl.events_default")
 	stateDefault := vpNondetI64("pl.state_default")
+	redactLvl := vpNondetI64("pl.redact")
 	senderListed := vpNondetBool("pl.sender_listed")
 	typeListed := vpNondetBool("pl.type_listed")
 	if hasPL {
@@ -77,7 +104,7 @@ func vp_C07_default() {
 		if typeListed {
 			events = vpJObj(evType, typeLvl)
 		}
-		pl := vpJObj("users", users, "users_default", usersDefault, "events", events, "events_default", eventsDefault, "state_default", stateDefault)
+		pl := vpJObj("users", users, "users_default", usersDefault, "events", events, "events_default", eventsDefault, "state_default", stateDefault, "redact", redactLvl)
 		_ = auth.AddEvent(vpMkEvent(ver, "$pl:x", room, creator, spec.MRoomPowerLevels, vpStrPtr(""), pl))
 	}
 
@@ -87,6 +114,14 @@ func vp_C07_default() {
 	}
 
 	ev := vpMkEvent(ver, "$e:x", room, sender, evType, stateKey, vpJObj("body", "x"))
+	redactsOwnServer := vpNondetBool("redacts_event_of_own_server")
+	if kind == "redaction" {
+		if redactsOwnServer {
+			vpSetRedacts(ev, "$victim:x")
+		} else {
+			vpSetRedacts(ev, "$victim:elsewhere")
+		}
+	}
 	err := Allowed(ev, auth, vpUserIDForSender)
 	got := err == nil
 
@@ -145,6 +180,27 @@ func vp_C07_default() {
 	}
 	if stateKey != nil && len(*stateKey) > 0 && (*stateKey)[0] == '@' && *stateKey != sender {
 		want = false
+	}
+	switch kind {
+	case "redaction":
+		n, _ := vpVerNum(ver)
+		if n <= 2 && !redactsOwnServer {
+			need := int64(50)
+			if hasPL {
+				need = redactLvl
+			}
+			if lvl < need {
+				want = false
+			}
+		}
+	case "aliases":
+		// D4: only the create event (same room), m.federate and the state key matter
+		want = hasCreate && (vpIsV12(ver) || createRoom == room) && !(federate == "false" && senderDomain != creatorDomain)
+		if ver == RoomVersionPseudoIDs {
+			want = want && stateKey != nil && *stateKey == sender
+		} else {
+			want = want && stateKey != nil && *stateKey == "x"
+		}
 	}
 	vpAssert("default-event-verdict", got == want)
 	vpReach("accepted", got)
